@@ -190,11 +190,42 @@ class MustCall:
     satisfies `pred(path)` or is itself a workspace function for which `holds` is true (depth-bounded, cycles count as False).
     `escaping(fn)` lists the return blocks that can be reached without such a call."""
 
-    def __init__(self, facts, pred, depth=4):
+    def __init__(self, facts, pred, depth=4, absent=()):
+        """absent: path suffixes of Option-returning functions whose `None` means "there is nothing to do the obligation for" (e.g. the client named
+        a document that is not a file); the `None` successor of a switch on such a result counts as passed"""
         self.fx = facts
         self.pred = pred
         self.depth = depth
+        self.absent = tuple(absent)
         self.memo = {}
+
+    def absent_blocks(self, fn):
+        out = set()
+        if not self.absent:
+            return out
+        opt = set()
+        for bi, t in calls(fn):
+            p = callee(t)[0]
+            if p and any(pm(p, a) for a in self.absent) and not t["dst"].get("p"):
+                opt.add(t["dst"]["l"])
+        if not opt:
+            return out
+        # locals holding the discriminant of such a result
+        discr = {}
+        for bi, si, st in stmts(fn):
+            if st["k"] == "assign" and st["rv"].get("k") == "discr" and st["rv"]["place"]["l"] in opt and not st["rv"]["place"].get("p"):
+                discr[st["dst"]["l"]] = st["rv"]["place"]["l"]
+        for bi, b in enumerate(fn.blocks):
+            t = b["term"]
+            if t["k"] == "switch":
+                l = op_local(t["discr"])
+                if l in discr:
+                    vals = dict((v, tb) for v, tb in t.get("targets", []))
+                    if 0 in vals:
+                        out.add(vals[0])
+                    elif 1 in vals and t.get("otherwise") is not None:
+                        out.add(t["otherwise"])
+        return out
 
     def call_blocks(self, fn, depth=None, stack=()):
         depth = self.depth if depth is None else depth
@@ -227,7 +258,7 @@ class MustCall:
         return out
 
     def escaping(self, fn, depth=None, stack=(), starts=(0,)):
-        through = set(self.call_blocks(fn, depth, stack)) | self.error_exit_blocks(fn)
+        through = set(self.call_blocks(fn, depth, stack)) | self.error_exit_blocks(fn) | self.absent_blocks(fn)
         live = set()
         for st in starts:
             if st not in through:
